@@ -116,6 +116,11 @@ func cmdOne(args []string) {
 	for _, k := range sortedProbeKeys(st.Faults) {
 		fmt.Printf("  fault %-40s %d\n", k, st.Faults[k])
 	}
+	for k := range st.States {
+		if strings.HasPrefix(k, "unit:") {
+			fmt.Println("  state", k)
+		}
+	}
 	if out.Panicked != "" {
 		fmt.Println("PANICKED:", out.Panicked)
 	}
